@@ -162,6 +162,9 @@ func TestFileReadAt(tb testing.TB, o FSOptions) {
 						Path: "foo",
 						Err:  tc.expectErr,
 					}, err)
+				} else {
+					// like os.File, ReadAt may return a bare error (io.EOF). No error at all is never right here
+					assert.Error(tb, err)
 				}
 				return
 			}
